@@ -120,7 +120,7 @@ Proof.
 Qed.
 
 Lemma wf_identity n : wf_mat n (map (unit_vec n) (seq 0 n)).
-Proof. apply Forall_forall. intros v Hv. apply in_map_iff in Hv as [i [<- _]]. apply unit_vec_length. Qed.
+Proof. unfold wf_mat; apply Forall_forall; intros v Hv. apply in_map_iff in Hv as [i [<- _]]. apply unit_vec_length. Qed.
 
 (* THE assembly theorem: the matrix whose COLUMNS are f(e_i) represents the linear map f *)
 Theorem assembly_cols n m f x :
@@ -131,7 +131,7 @@ Proof.
   rewrite matvec_transpose.
   - rewrite <- (map_map (unit_vec n) f), (mattvec_map_linear n m) by (try assumption; apply wf_identity).
     rewrite mattvec_identity by exact Hx. reflexivity.
-  - apply Forall_forall. intros v Hv. apply in_map_iff in Hv as [i [<- _]]. apply Hm, unit_vec_length.
+  - unfold wf_mat; apply Forall_forall; intros v Hv. apply in_map_iff in Hv as [i [<- _]]. apply Hm, unit_vec_length.
   - rewrite map_length, seq_length. exact Hx.
 Qed.
 
@@ -149,7 +149,7 @@ Proof.
   intros Hwf Hj. unfold LinAlg.matvec, LinAlg.col. apply map_ext_in. intros row Hin.
   rewrite (dot_comm R r0 r1 radd rmul rsub ropp Rth).
   apply (dot_unit_vec R r0 r1 radd rmul rsub ropp Rth); [|exact Hj].
-  rewrite Forall_forall in Hwf. apply Hwf. exact Hin.
+  unfold wf_mat in Hwf. rewrite Forall_forall in Hwf. apply Hwf. exact Hin.
 Qed.
 
 Theorem assembly_rows_iff_symmetric n f :
@@ -160,9 +160,9 @@ Proof.
   intros Ha Hh Hm. split.
   - intros H. unfold LinAlg.transpose.
     assert (Hwf : wf_mat n (assemble_rows r0 r1 f n)).
-    { apply Forall_forall. intros v Hv. apply in_map_iff in Hv as [i [<- _]]. apply Hm, unit_vec_length. }
-    unfold assemble_rows at 3. apply map_ext_in. intros j Hj. apply in_seq in Hj.
-    rewrite <- matvec_unit_col by (try exact Hwf; lia).
+    { unfold wf_mat; apply Forall_forall; intros v Hv. apply in_map_iff in Hv as [i [<- _]]. apply Hm, unit_vec_length. }
+    unfold assemble_rows at 2. apply map_ext_in. intros j Hj. apply in_seq in Hj.
+    rewrite <- (matvec_unit_col n) by (try exact Hwf; lia).
     apply H, unit_vec_length.
   - intros Hs x Hx. apply assembly_rows_symmetric; assumption.
 Qed.
@@ -257,11 +257,8 @@ Proof.
   unfold deconv1_matrix, assemble_cols.
   set (M := assemble_rows r0 r1 (conv1d r0 radd rmul bcm P) n).
   assert (Hwf : wf_mat n M).
-  { apply Forall_forall. intros v Hv. apply in_map_iff in Hv as [i [<- _]]. apply conv1d_maps_to, unit_vec_length. }
+  { unfold wf_mat; apply Forall_forall; intros v Hv. apply in_map_iff in Hv as [i [<- _]]. apply conv1d_maps_to, unit_vec_length. }
   rewrite matvec_transpose by (try exact Hwf; unfold M, assemble_rows; rewrite map_length, seq_length; exact Hy).
-  rewrite (dot_comm R r0 r1 radd rmul rsub ropp Rth x).
-  rewrite (dot_comm R r0 r1 radd rmul rsub ropp Rth (matvec M x)).
-  symmetry. rewrite (dot_comm R r0 r1 radd rmul rsub ropp Rth).
   apply (adjoint_identity R r0 r1 radd rmul rsub ropp Rth); assumption.
 Qed.
 
